@@ -317,8 +317,37 @@ pub fn c37_case(src: &mut Src, obs: &mut Obs) -> CaseResult {
     let mut live: Vec<H> = vec![];
     let mut history: Vec<String> = vec![];
     let mut shared_drop = false;
+    let mut recreated = false;
     for _ in 0..n {
-        match src.weighted(&[6, 2, 5, 2, 3, 2, 2]) {
+        match src.weighted(&[6, 2, 5, 2, 3, 2, 2, 3]) {
+            7 => {
+                // the last stream of a rule goes away while a new stream for an equal rule is being
+                // created: the removal and the new subscription are in flight together
+                let idx: Vec<usize> = live.iter().enumerate().filter(|(i, h)| matches!(h, H::Stream(r, _) if !live.iter().enumerate().any(|(j, x)| j != *i && matches!(x, H::Stream(r2, _) if r2 == r)))).map(|(i, _)| i).collect();
+                if idx.is_empty() {
+                    continue;
+                }
+                let i = idx[src.below(idx.len())];
+                let H::Stream(r, old) = live.remove(i) else { continue };
+                let asyncd = src.bool();
+                let c = conn.clone();
+                let st = if asyncd {
+                    run_op(&mut sched, &mut sch, &mut bus, async move {
+                        use zbus::AsyncDrop;
+                        let (_, b) = futures_util::future::join(old.async_drop(), zbus::MessageStream::for_match_rule(SRULES[r], &c, None)).await;
+                        b.map_err(|e| e.to_string())
+                    })
+                } else {
+                    drop(old);
+                    run_op(&mut sched, &mut sch, &mut bus, async move { zbus::MessageStream::for_match_rule(SRULES[r], &c, None).await.map_err(|e| e.to_string()) })
+                };
+                match st {
+                    Some(Ok(s)) => live.push(H::Stream(r, s)),
+                    other => return Err(Failure::new(format!("re-creating a stream for {:?} while its last stream is dropped failed: {:?}; history {history:?}", SRULES[r], other.map(|x| x.err())))),
+                }
+                recreated = true;
+                history.push(format!("{}+stream(rule{r}) at once", if asyncd { "async_drop" } else { "drop" }));
+            }
             5 => {
                 // two first subscribers of one rule at the same time: the second starts while the
                 // first still waits for the bus to answer its AddMatch
@@ -482,6 +511,61 @@ pub fn c37_case(src: &mut Src, obs: &mut Obs) -> CaseResult {
             return Err(Failure::new(format!("match rules registered with the bus: {got:?}; live signal subscriptions: {want:?}; history {history:?}")));
         }
     }
+    // every live stream is really subscribed: a matching signal per rule reaches each of them once
+    {
+        let rules: BTreeSet<usize> = live.iter().filter_map(|h| if let H::Stream(r, _) = h { Some(*r) } else { None }).filter(|r| *r < 3).collect();
+        for (k, r) in rules.iter().enumerate() {
+            let mark = 7000 + k as u32;
+            match r {
+                0 => {
+                    let mut m = bus.peer.signal("/c37/x", "c37.A", "Anything", Some(":1.9"), vec![RVal::U(mark)]);
+                    m.fields.push((msg::F_DESTINATION, RVal::S(ME.into())));
+                    bus.peer.send(&m);
+                }
+                1 => {
+                    let mut m = bus.peer.signal("/c37/y", "c37.B", "Changed", Some(":1.9"), vec![RVal::U(mark)]);
+                    m.fields.push((msg::F_DESTINATION, RVal::S(ME.into())));
+                    bus.peer.send(&m);
+                }
+                _ => bus.bus_signal("NameOwnerChanged", vec![RVal::S("c37.Svc".into()), RVal::S(":1.7".into()), RVal::S(format!(":1.{mark}"))], BUS),
+            }
+        }
+        settle(&mut sched, &mut sch, &mut bus);
+        for h in live.iter_mut() {
+            if let H::Stream(r, s) = h {
+                if *r >= 3 {
+                    continue;
+                }
+                let mut got = 0;
+                let mut ended = false;
+                loop {
+                    let mut cx = std::task::Context::from_waker(std::task::Waker::noop());
+                    match futures_core::Stream::poll_next(std::pin::Pin::new(&mut *s), &mut cx) {
+                        std::task::Poll::Ready(Some(Ok(m))) => {
+                            let iface = m.header().interface().map(|i| i.to_string()).unwrap_or_default();
+                            let last = match r {
+                                0 => iface == "c37.A",
+                                1 => iface == "c37.B",
+                                _ => iface == "org.freedesktop.DBus" && m.body().deserialize::<(String, String, String)>().map(|b| b.2.starts_with(":1.70")).unwrap_or(false),
+                            };
+                            if last {
+                                got += 1;
+                            }
+                        }
+                        std::task::Poll::Ready(Some(Err(_))) => {}
+                        std::task::Poll::Ready(None) => {
+                            ended = true;
+                            break;
+                        }
+                        std::task::Poll::Pending => break,
+                    }
+                }
+                if got != 1 || ended {
+                    return Err(Failure::new(format!("a live stream for {:?} {} the matching signal sent at the end ({} cop{}); history {history:?}", SRULES[*r], if ended { "ended instead of yielding" } else { "did not yield exactly once" }, got, if got == 1 { "y" } else { "ies" })));
+                }
+            }
+        }
+    }
     // everything dropped: nothing stays registered
     live.clear();
     settle(&mut sched, &mut sch, &mut bus);
@@ -491,6 +575,9 @@ pub fn c37_case(src: &mut Src, obs: &mut Obs) -> CaseResult {
     let _ = (|| -> Option<Connection> { None })();
     let _: Option<RMsg> = None;
     obs.label(if shared_drop { "drop-with-sharer-alive" } else { "no-shared-drop" });
+    if recreated {
+        obs.label("last-stream-dropped-while-an-equal-one-is-created");
+    }
     if shared_drop {
         obs.nontrivial(fnv(format!("{history:?}").as_bytes()));
         obs.sample("subscriptions", || format!("{history:?}"));
